@@ -18,6 +18,8 @@ def kraus_names(d, seed):
     ins = A.instruments_ref(d, seed)
     for k in sorted(ins):
         names += ["inst:%s:%d" % (k, x) for x in range(len(ins[k]))]
+    # a unitary channel with a WEAK admixture of a second channel: Choi eigenvalues of size p far above rounding, far below 1
+    names += ["weak:%s" % e for e in ("1e-06", "1e-09", "1e-11")]
     names += list(NONCP)
     return names
 
@@ -54,7 +56,13 @@ def ex_kraus(p, seed):
             out.count("kraus_noncp_empty")
         out.outcome = "noncp"
         return out
-    if name.startswith("half:"):
+    tol_action = 1e-9
+    if name.startswith("weak:"):
+        pw = float(name[5:])
+        ks = [np.sqrt(1 - pw) * K for K in gates["unitary_generic"]] + [np.sqrt(pw) * K for K in gates["ampdamp"]]
+        tol_action = 1e-13
+        out.count("kraus_weak_admixture")
+    elif name.startswith("half:"):
         ks = [np.sqrt(0.5) * K for K in gates[name[5:]]]
     elif name.startswith("inst:"):
         _, k, x = name.split(":")
@@ -96,7 +104,7 @@ def ex_kraus(p, seed):
         else:
             out.count("kraus_in_band")
     else:
-        kk = kraus_action_check(out, "to_kraus_matrices_from_hs", tag, kl, ks, d, det)
+        kk = kraus_action_check(out, "to_kraus_matrices_from_hs", tag + (":weak-admixture" if name.startswith("weak:") else ""), kl, ks, d, det, tol_action)
         if kk is not None:
             if len(kk) != rank:
                 out.count("kraus_count_differs_from_rank")
@@ -113,7 +121,7 @@ def ex_kraus(p, seed):
         else:
             out.count("gate_kraus_in_band")
     else:
-        kraus_action_check(out, "Gate.to_kraus_matrices", tag, kl, ks, d, det)
+        kraus_action_check(out, "Gate.to_kraus_matrices", tag + (":weak-admixture" if name.startswith("weak:") else ""), kl, ks, d, det, tol_action)
     out.digest = dg.hex()
     out.outcome = "rank=%d" % rank if not out.fails else "fail"
     return out
